@@ -192,7 +192,23 @@ def F22():
     return not np.allclose(_gumbel1().probability_density(X), 1.0)
 
 
-ALL = ['F1', 'F2', 'F4', 'F5', 'F6', 'F8', 'F9', 'F11', 'F12', 'F13', 'F15', 'F16', 'F17', 'F18', 'F19', 'F20', 'F21', 'F22']
+def F23():
+    from copulas.multivariate import VineCopula
+    import warnings
+    warnings.filterwarnings('ignore')
+    bad = 0
+    for seed in (1, 2, 4):
+        rng = np.random.RandomState(seed)
+        X = pd.DataFrame(rng.normal(size=(300, 5)) @ rng.normal(size=(5, 5)), columns=list('abcde'))
+        v = VineCopula('direct', random_state=1); v.fit(X)
+        for t in v.trees[1:]:
+            for e in t.edges:
+                p0 = e.parents[0]
+                bad += e.L not in (p0.L, p0.R)
+    return bad > 0
+
+
+ALL = ['F1', 'F2', 'F4', 'F5', 'F6', 'F8', 'F9', 'F11', 'F12', 'F13', 'F15', 'F16', 'F17', 'F18', 'F19', 'F20', 'F21', 'F22', 'F23']
 if __name__ == '__main__':
     for name in (sys.argv[1:] or ALL):
         try:
